@@ -29,6 +29,8 @@ pub mod dispatcher;
 pub mod gateway;
 pub mod metrics;
 pub(crate) mod packet_policy;
+#[cfg(feature = "verif-hooks")]
+pub mod verif;
 pub mod state;
 
 /// The direction in which the observed packet crossed the SNAP tunnel.
